@@ -666,6 +666,14 @@ pub fn spawn_child(args: &[&str], envs: &[(&str, &str)], stdin: Option<&[u8]>) -
 /// from the run seed), and turns every crash artifact into a violation whose
 /// replay file is the artifact itself.
 pub fn fuzz_campaign(run: &Run, target: &str, jobs: usize, runs: u64, max_len: usize, dict: Option<&str>) {
+    fuzz_campaign_sub(run, target, None, jobs, runs, max_len, dict)
+}
+
+/// Like `fuzz_campaign`; with `sub = Some(name)` the generic `choices` target
+/// searches over that sub-check's choice sequences and crash artifacts are
+/// converted into ordinary replay files.
+pub fn fuzz_campaign_sub(run: &Run, target: &str, sub_f: Option<(&str, &CaseFn<'_>)>, jobs: usize, runs: u64, max_len: usize, dict: Option<&str>) {
+    let sub = sub_f.map(|(n, _)| n);
     use std::process::{Command, Stdio};
     let root = verif_root();
     let fuzz_dir = root.join("fuzz");
@@ -690,12 +698,16 @@ pub fn fuzz_campaign(run: &Run, target: &str, jobs: usize, runs: u64, max_len: u
     }
     let bin = fuzz_dir.join("target/x86_64-unknown-linux-gnu/release").join(target);
     let seeds = fuzz_dir.join("corpus").join(target);
-    let art = fuzz_dir.join("artifacts").join(target);
+    let label = match sub {
+        Some(s) => format!("{target}-{}-{s}", run.prop),
+        None => target.to_string(),
+    };
+    let art = fuzz_dir.join("artifacts").join(&label);
     let _ = std::fs::create_dir_all(&art);
     let before: HashSet<String> = std::fs::read_dir(&art).map(|d| d.filter_map(|e| e.ok()).map(|e| e.file_name().to_string_lossy().to_string()).collect()).unwrap_or_default();
     let mut children = Vec::new();
     for j in 0..jobs {
-        let work = fuzz_dir.join("corpus-run").join(format!("{target}-{j}"));
+        let work = fuzz_dir.join("corpus-run").join(format!("{label}-{j}"));
         let _ = std::fs::remove_dir_all(&work);
         let _ = std::fs::create_dir_all(&work);
         let mut cmd = Command::new(&bin);
@@ -709,6 +721,9 @@ pub fn fuzz_campaign(run: &Run, target: &str, jobs: usize, runs: u64, max_len: u
             .arg("-timeout=60");
         if let Some(d) = dict {
             cmd.arg(format!("-dict={}", fuzz_dir.join(d).display()));
+        }
+        if let Some(sub) = sub {
+            cmd.env("WF_FUZZ_SUB", format!("{}:{}", run.prop, sub));
         }
         cmd.stdout(Stdio::null()).stderr(Stdio::piped());
         match cmd.spawn() {
@@ -748,10 +763,10 @@ pub fn fuzz_campaign(run: &Run, target: &str, jobs: usize, runs: u64, max_len: u
     new_artifacts.sort();
     let mut st = Stats::default();
     st.evals_n(execs);
-    st.class_n(&format!("libfuzzer-{target}-executions"), execs);
-    run.add_stats(&format!("libfuzzer-{target}"), st);
+    st.class_n(&format!("libfuzzer-{label}-executions"), execs);
+    run.add_stats(&format!("libfuzzer-{label}"), st);
     run.note(
-        &format!("libfuzzer_{target}"),
+        &format!("libfuzzer_{label}"),
         json!({"status": "ran", "jobs": jobs, "runs_per_job": runs, "executions": execs, "jobs_stopped_abnormally": crashed, "new_artifacts": new_artifacts.len()}),
     );
     for a in new_artifacts {
@@ -760,6 +775,21 @@ pub fn fuzz_campaign(run: &Run, target: &str, jobs: usize, runs: u64, max_len: u
             // slow / memory-hungry inputs are reported as inconclusive, not as violations
             eprintln!("libFuzzer {target}: {name} (not counted as a violation)");
             run.inconclusive.store(true, Ordering::Relaxed);
+            continue;
+        }
+        if let Some(sub) = sub {
+            // convert the artifact into an ordinary replay (choice sequence)
+            if let Ok(bytes) = std::fs::read(&a) {
+                let choices: Vec<u32> = bytes.chunks_exact(4).map(|c| u32::from_le_bytes([c[0], c[1], c[2], c[3]])).collect();
+                let mut st2 = Stats::default();
+                st2.frozen = true;
+                let mut ch = Choices::new(&choices);
+                let fail = match run_case(sub_f.unwrap().1, &mut ch, &mut st2) {
+                    Err(f) => f,
+                    Ok(()) => Fail::new("flaky", format!("libFuzzer artifact {} does not fail when re-run in process", a.display()), Value::Null),
+                };
+                run.push_violation(Violation { sub: sub.to_string(), fail, choices, exact: false });
+            }
             continue;
         }
         println!("VIOLATION property={} replay={}", run.prop, a.display());
